@@ -111,17 +111,10 @@ structure Input where
     response at run time -/
 def holds (x : Input) (v : ClientView) : Bool := allowed x.status x.body x.range v
 
-/-! Known-finding classes (decidable, as narrow as the defect). -/
-
-/-- C15-a: suffix form `-k` with `k` larger than the resource -/
-def inClass_C15_a (x : Input) : Bool :=
-  x.status == 200 && match parseRange x.range with
-    | .suffix k => decide (k > x.body.length)
-    | _ => false
-
-/-- C15-b: suffix form `-0` -/
-def inClass_C15_b (x : Input) : Bool :=
-  x.status == 200 && parseRange x.range == .suffix 0
+/-! Known-finding classes (decidable, as narrow as the defect).
+    The former classes C15-a (suffix form `-k` with `k` larger than the resource) and C15-b (suffix
+    form `-0`) are gone: the suffix arithmetic was repaired in the code (fix: commit for C15-a/C15-b);
+    their witness streams kf.C15-a / kf.C15-b run as regression streams outside any class. -/
 
 /-- C15-c: a `200` resource without a positive `Content-Length` header (chunked or recompressed
     origin), asked for a valid single range -/
@@ -153,13 +146,12 @@ def inClass_C15_h (x : Input) : Bool :=
 def originOk (originSawRange : Bool) : Bool := !originSawRange
 
 def classes (x : Input) : List String :=
-  (if inClass_C15_a x then ["C15-a"] else []) ++ (if inClass_C15_b x then ["C15-b"] else []) ++
   (if inClass_C15_c x then ["C15-c"] else []) ++ (if inClass_C15_d x then ["C15-d"] else []) ++
   (if inClass_C15_f x then ["C15-f"] else []) ++ (if inClass_C15_g x then ["C15-g"] else []) ++
   (if inClass_C15_h x then ["C15-h"] else [])
 
 /-- the classes that concern the response itself (C15-h concerns the origin request) -/
 def inViewClass (x : Input) : Bool :=
-  inClass_C15_a x || inClass_C15_b x || inClass_C15_c x || inClass_C15_d x || inClass_C15_f x || inClass_C15_g x
+  inClass_C15_c x || inClass_C15_d x || inClass_C15_f x || inClass_C15_g x
 
 end Spec.C15
